@@ -177,6 +177,35 @@ theorem encAllV_map {C : Type} (f : List B → List C) (hnil : f [] = []) (happ 
         | error e => simp
         | ok r2 => obtain ⟨ws2, sf⟩ := r2; simp [happ]
 
+/-- `lockstep_var` with the encoder's symbols (type `B`) re-labelled through a monoid morphism `f`
+    into what the decoder reads (type `C`), and a predicate `Pr` on the encoder's symbols that is
+    closed under concatenation and established by every step -/
+theorem lockstep_var2 {C : Type} (f : List B → List C) (hnil : f [] = []) (happ : ∀ a b, f (a ++ b) = f a ++ f b)
+    (Pr : List B → Prop) (hp0 : Pr []) (hpa : ∀ a b, Pr a → Pr b → Pr (a ++ b))
+    (e0 : ε) (encStep : σ → List S → Except ε (List B × σ × List S))
+    (decStep : σ → Nat → List C → Except ε (σ × Nat × List C)) (inv : σ → List S → Prop)
+    (hstep : ∀ s todo, todo ≠ [] → inv s todo →
+      ∃ ws s' todo', encStep s todo = .ok (ws, s', todo') ∧ todo'.length < todo.length ∧ inv s' todo' ∧ Pr ws ∧
+        ∀ rest, decStep s todo.length (f ws ++ rest) = .ok (s', todo'.length, rest)) :
+    ∀ (fuel : Nat) (s : σ) (todo : List S), todo.length < fuel → inv s todo →
+      ∃ ws sf, encAllV e0 encStep fuel s todo = .ok (ws, sf) ∧ inv sf [] ∧ Pr ws ∧
+        ∀ rest, decAllV e0 decStep fuel s todo.length (f ws ++ rest) = .ok (sf, rest)
+  | 0, _, _, h, _ => by omega
+  | n + 1, s, todo, hf, hi => by
+    cases todo with
+    | nil => exact ⟨[], s, by simp [encAllV], hi, hp0, fun rest => by simp [decAllV, hnil]⟩
+    | cons x xs =>
+      obtain ⟨ws, s', todo', he, hlt, hi', hpr, hd⟩ := hstep s (x :: xs) (by simp) hi
+      obtain ⟨ws2, sf, he2, hif, hpr2, hd2⟩ :=
+        lockstep_var2 f hnil happ Pr hp0 hpa e0 encStep decStep inv hstep n s' todo' (by omega) hi'
+      refine ⟨ws ++ ws2, sf, ?_, hif, hpa _ _ hpr hpr2, ?_⟩
+      · simp only [encAllV, List.isEmpty_cons, Bool.false_eq_true, if_false, he, he2]
+      · intro rest
+        have hne : (x :: xs).length ≠ 0 := by simp
+        simp only [decAllV, hne, if_false]
+        rw [happ, List.append_assoc, hd (f ws2 ++ rest)]
+        exact hd2 rest
+
 end Var
 
 end Lockstep
